@@ -34,6 +34,14 @@ CHECKS = {
         text="Proofs that the decidable invariant check_inv_sv means exactly the property's structure (disjoint ascending runs, one table per key per run, recency order across containers, exact metadata, unique ids), that optimize_runs and with_new_l0_run/with_dropped/with_merge/with_moved preserve it for all inputs under decidable placement conditions, and the version-file round trip; on every real run check_inv_sv is evaluated on EVERY published superversion, the model's transformations must reproduce the real layouts, and the placement conditions are evaluated on every real step.",
         note=NOTE_TB + "File existence is checked from the directory listing in C20; manifest bytes vs model decoder in C04.",
         design="7/C07", technique="Coq proof (invariant preservation per transformation) + certificate on every dumped version"),
+    "C11": dict(
+        text="Proof that point reads and scans (all bounds, all pull interleavings) of a structurally sound superversion depend only on its logical content as a multiset of entries (permutation-invariance via the read-path refinement theorems), and that ANY cache / descriptor table that only returns what was inserted under a (tag, tree id, file id, offset) key - any capacity incl. zero, any eviction, shared with other trees - is transparent (loads_independent, shared_cache_isolated, key injectivity). Real runs execute the same history on 4-8 trees with configurations drawn from the whole product (block size, restart interval, hash ratio, partitioning, pinning, filter policy incl. none, cache 0..1MiB, fd table none/1/64) and require identical observations and Spec agreement, and on 3-4 trees that share one tiny cache and descriptor table while holding different data under coinciding table ids.",
+        note=NOTE_TB + "quick_cache is modelled as an arbitrary coherent partial map (sound over-approximation), not verified; compression feature (lz4) is not enabled in this build.",
+        design="7/C11", technique="Coq proof (reads factor through logical content; cache as arbitrary coherent map) + multi-configuration / shared-cache differential"),
+    "C12": dict(
+        text="Byte-exact Coq models of the data block (full/truncated items, restart intervals, binary index with 2/4-byte step, hash index with FREE/CONFLICT markers, trailer), block header, Bloom filter (wrapping double hashing mod 2^64) and varints with proofs, for every hash function: forward and backward scans return the written items, point_read returns the first item with the key and a smaller seqno through all three lookup paths, no false negatives, round trips. Every run compares the crate's own encoders BYTE FOR BYTE with the extracted model on generated item streams (adversarial key shapes, multi-version slabs, large values), replays every (key, seqno+-1) point read incl. absent neighbours, and reads real table files back exhaustively (point reads at every seqno, ranged scans with pull patterns) under random writer settings after a reopen.",
+        note=NOTE_TB + "xxh3 is a parameter (real hash values are passed in as data); the index block and partitioned index/filter are covered only by the table read-back differential, not by a byte-level theorem; mixed next/next_back inside one block is proved only for pure forward / pure backward (mixed: bounded check by the proof worker).",
+        design="7/C12", technique="Coq proof (byte-level codec round trips and lookup correctness) + byte-equality differential with the crate's encoders"),
     "C13": dict(
         text="Proof that for a key whose versions strictly alternate between weak tombstones and values the compaction stream only removes adjacent (weak tombstone, value) pairs, keeps the alternation, keeps a live newest value and never exposes an older value, composed with arbitrary deeper containers (cstream_weak_top, cstream_weak_view_with_deeper); refutation of the shipped 3.1.9 stream (finding F3, fixed). Real disciplined histories are run with all maintenance interleavings and compared with the Spec at every snapshot.",
         note=NOTE_TB + "Discipline enforced by the generator and the shrinker; undisciplined use resurrects by design (proved as refutation).",
